@@ -215,7 +215,15 @@ func (dp *DPoVP) saveNewBlock(block *types.Block) error {
 		dp.onCurrentChanged(oldCurrent, dp.CurrentBlock())
 	} else {
 		// 该块插入到了其他分支上，把该block中的交易push到本分支状态的交易池中
-		dp.txPool.AddTxs(block.Txs)
+		// Except those which are on current fork already. Or we would package them again and make an invalid block
+		current := dp.CurrentBlock()
+		sideTxs := make(types.Transactions, 0, len(block.Txs))
+		for _, tx := range block.Txs {
+			if !dp.txGuard.ExistTx(current.Hash(), tx) {
+				sideTxs = append(sideTxs, tx)
+			}
+		}
+		dp.txPool.AddTxs(sideTxs)
 	}
 
 	// 如果是出现了新的稳定块
